@@ -12,14 +12,35 @@ pub fn run(args: &[String]) {
             Err(_) => println!("PARSE-PANIC"),
             Ok(Err(e)) => {
                 let msg = e.help().map(|h| h.to_string()).unwrap_or_default().replace('\n', " ");
-                println!("PARSE-ERR {}", msg.chars().take(120).collect::<String>());
+                println!("H {}", case.hist.join(" "));
+                println!("TRACE-BEGIN");
+                println!("REJECTED");
+                println!("INFO {}", msg.chars().take(100).collect::<String>());
+                println!("TRACE-END");
             }
             Ok(Ok(cfg)) => {
+                println!("H {}", case.hist.join(" "));
                 println!("TRACE-BEGIN");
                 let mut mk: Vec<u16> = cfg.mapped_keys.iter().map(|o| o.as_u16()).collect();
                 mk.sort();
                 let s: Vec<String> = mk.iter().map(|c| c.to_string()).collect();
-                println!("MAPPED {}", s.join(" "));
+                let want_seqs = case.hist.iter().any(|t| t == "DEF" || t == "SEQS");
+                if !want_seqs {
+                    println!("MAPPED {}", s.join(" "));
+                }
+                let mut seqs: Vec<String> = cfg
+                    .sequences
+                    .verif_entries()
+                    .into_iter()
+                    .map(|(k, (x, y))| {
+                        let ks: Vec<String> = k.iter().map(|v| v.to_string()).collect();
+                        format!("{}>{},{}", ks.join("."), x, y)
+                    })
+                    .collect();
+                seqs.sort();
+                if want_seqs {
+                    println!("SEQS {}", seqs.join(" "));
+                }
                 println!("TRACE-END");
             }
         }
